@@ -4,16 +4,103 @@ RULE = ("scenarios over real sockets, each in its own child process with a deadl
         "inbound burst of requests and unsolicited responses from a raw server, three concurrent Closes, Close right after Dial; Close must return "
         "within the bound; afterwards Invoke must fail at once, the state must be SHUTDOWN, no dial may reach the proxy, no handler may start, no "
         "client-side wsrpc goroutine may remain, a further Close must return")
+SCEN = {  # the harness scenarios as histories of the model: the environment's part; the helpers (RunClose.settle) do the rest
+    "idle-longer-than-write-timeout": "p_connect ++ [LNewInvoke; LG 0 GA; LG 0 GA; LG 0 GA; LG 0 (GAHand true); LG 0 GAResp; LNewClose]",
+    "calls-in-flight": "p_connect ++ [LNewInvoke; LNewInvoke; LG 0 GA; LG 0 GA; LG 0 GA; LG 0 (GAHand true); LG 1 GA; LG 1 GA; LNewClose; LClose 0 true]",
+    "inbound-requests-with-slow-handlers": "p_connect ++ [LNet 0; LHand 0 (Some true); LNet 0; LHand 0 (Some true); LNewClose; LClose 0 true]",
+    "reconnect-in-progress": "[LLc; LRt true; LRt true; LDial false; LRt true; LRt true; LLc; LNewClose]",
+    "inbound-burst": "p_connect ++ [LNet 0; LHand 0 (Some true); LHandlerRet 0 true; LNet 0; LHand 0 (Some false); LNet 0; LNewClose; LClose 0 true]",
+    "concurrent-close": "p_connect ++ [LNewClose; LNewClose; LNewClose; LClose 0 true; LClose 1 true; LClose 2 true; LClose 1 true]",
+    "close-right-after-dial": "[LLc; LRt true; LRt true; LNewClose; LClose 0 true; LDial true]",
+    "write-fails-with-message-in-hand": "p_connect ++ [LNet 0; LWpTickErr 0; LWpLock 0; LWpRel 0 true; LLc; LRtFired; LLr; LLr; LLr; LLr; LHr 0; LRt true; LRt true; LDial true; LRt true; LRt true; LLc; LLr; LLr; LLr; LLr; LNewClose]",
+    "close-while-call-is-being-prepared": "p_connect ++ [LNewInvoke; LG 0 GA; LG 0 GA; LNewClose; LClose 0 true; LClose 0 true]",
+    "peer-closed-first": "p_connect ++ [LSockDie 0; LRp 0; LWpCwp 0; LWpLock 0; LWpRel 0 true; LLc; LRtFired; LRt true; LRt true; LDial false; LNewClose]",
+}
+CFG_ORDER = ["invoke_nil", "handler_nil", "rp_cconn", "rp_wdone", "wr_wdone", "wp_sock", "wp_cc_sock", "inv_connctx", "close_again", "csm_final"]
+STRUCT = ["rt_unlock_before_close", "wg_add_before_go"]
 ASSUMPTIONS = ["'bounded' is observed as 3 s (6 s before a hang is declared); goroutines are counted from a stack dump"]
 FILES = ["root/fake_test.go", "root/c16_test.go", "root/c07_test.go", "root/peers_test.go", "root/c18_test.go", "root/c06_test.go", "root/session_test.go", "root/c01_test.go", "root/c14_test.go", "root/c09_test.go"]
 RW = {"server.go": [(r"\btransport\.NewServerTransport\(", "vNewServerTransport(")],
       "client.go": [(r"\btransport\.NewClientTransport\(", "vNewClientTransport("), (r"\btime\.NewTimer\(", "vNewTimer(")]}
 
 
+
+
+def shape(ctx):
+    """R: the facts about the sources on which the model depends, re-extracted from the working tree."""
+    import json, os, vlib
+    import props.C15 as c15
+    binp = c15.build_xlate()
+    os.makedirs(vlib.GEN, exist_ok=True)
+    js = os.path.join(vlib.GEN, "shape.json")
+    rc, out, _ = vlib.sh([binp, "shape", vlib.REPO, js], env=vlib.GOENV, timeout=120)
+    if rc != 0:
+        ctx.fail("harness:shape", "the translator could not read this tree: " + out[-800:], kind="correspondence", no_input=True)
+        return None
+    return json.load(open(js))
+
+
+def model_part(ctx, facts, impl_ok):
+    """the Close model with the configuration of the current sources: cfg = good (then the theorems apply), random walks, scenario histories"""
+    import os, re, vlib
+    cfg = facts["close"]
+    bad = [k for k in CFG_ORDER if not cfg.get(k)]
+    badst = [k for k in STRUCT if not facts["struct"].get(k)]
+    term = "(mkCfg %s)" % " ".join("true" if cfg.get(k) else "false" for k in CFG_ORDER)
+    seeds = "(map N.of_nat (seq %d %d))" % (1 + (ctx.seed * 1000) % 100000, 160 if ctx.thorough else 40)
+    d = os.path.join(vlib.GEN, "c09")
+    os.makedirs(d, exist_ok=True)
+    path = os.path.join(d, "C09_now.v")
+    with open(path, "w") as f:
+        f.write("From Coq Require Import NArith List.\nFrom WV Require Import Run.RunClose Proofs.CloseP.\nImport ListNotations.\n")
+        f.write("Definition cfg_now : cfg := %s.\n" % term)
+        f.write("Definition stuck := Eval vm_compute in close_stuck cfg_now %d %s.\nPrint stuck.\n" % (200 if ctx.thorough else 120, seeds))
+        f.write("Definition unsafe := Eval vm_compute in match walks cfg_now safe %d %s with Some (x, t) => Some (x, length t) | None => None end.\nPrint unsafe.\n" % (250 if ctx.thorough else 150, seeds))
+        f.write("Lemma cfg_is_good : cfg_now = good.\nProof. reflexivity. Qed.\n")
+        f.write("Theorem C09_now_never_crashes : forall ls, crashed (exec cfg_now init ls) = false.\nProof. rewrite cfg_is_good. intros ls. exact (i_nc _ (inv_exec ls init inv_init)). Qed.\n")
+        f.write("Theorem C09_now_closed_is_final : forall ls, tore (exec cfg_now init ls) = true -> final (exec cfg_now init ls) = true.\nProof. rewrite cfg_is_good. intros ls. apply inv_final. exact (inv_exec ls init inv_init). Qed.\n")
+        f.write("Print Assumptions C09_now_closed_is_final.\n")
+    rc, out, secs = vlib.coqc(path, timeout=900)
+    m1 = re.search(r"stuck\s*=\s*\[(.*?)\]", out, re.S)
+    m2 = re.search(r"unsafe\s*=\s*(None|Some[^\n]*)", out)
+    stuck = re.findall(r"\d+", re.sub(r"%\w+", "", m1.group(1))) if m1 else None
+    unsafe = m2.group(1) if m2 else None
+    ctx.extra["close_model"] = dict(cfg=cfg, struct=facts["struct"], walks_stuck=stuck, walks_unsafe=unsafe, coq_seconds=round(secs, 1))
+    ok_thm = rc == 0 and "Closed under the global context" in out
+    ctx.obligations += 3
+    ctx.discharged += (1 if not bad else 0) + (1 if ok_thm else 0) + (1 if not badst else 0)
+    if bad or badst or not ok_thm or stuck or (unsafe and unsafe != "None") or stuck is None:
+        what = []
+        if bad:
+            what.append("the Close model's configuration read off the sources is no longer `good` (%s false): theorem C09_closed_is_final / C09_never_crashes no longer apply to this tree" % ", ".join(bad))
+        if badst:
+            what.append("structural assumption(s) of the Close model no longer hold in the sources: %s" % ", ".join(badst))
+        if stuck:
+            what.append("in the model with this configuration Close does not come to an end from the states of random walks with seeds %s (RunClose.close_stuck)" % stuck[:6])
+        if unsafe and unsafe != "None":
+            what.append("the model with this configuration reaches an unsafe state (crash, or not final after Close): walk %s" % unsafe)
+        if not what:
+            what.append("gen/c09/C09_now.v no longer compiles: " + out[-600:])
+        # a concrete failing scenario on the implementation makes this a violation with an input; otherwise the obligation is named
+        ctx.fail("obligation:C09_cfg", "; ".join(what), kind="obligation", no_input=not ctx.concrete_seen,
+                 case=dict(theorem="cfg_is_good / C09_now_* in gen/c09/C09_now.v", cfg=cfg, struct=facts["struct"], model_stuck_seeds=stuck, model_unsafe=unsafe))
+    # the scenarios as histories of the model
+    cases = []
+    for name, pref in SCEN.items():
+        if name in impl_ok:
+            cases.append(dict(**{"class": "scenario-model/" + name, "sig": "scen/" + name, "info": {"scenario": name, "impl_ok": impl_ok[name], "outcome": "model"},
+                                 "coq": "CScen cfg_now (%s) %s" % (pref, "true" if impl_ok[name] else "false")}))
+    hdr = "From Coq Require Import NArith List.\nImport ListNotations.\nDefinition cfg_now : cfg := %s." % term
+    ctx.records += cases
+    ctx.model("Run.RunClose", cases, header=hdr)
+
+
 def run(ctx, test="^TestVerifC09$", name="C09", files=None):
     import re
     import props.C02 as c02
     import props.C17 as c17
+    ctx.concrete_seen = False
+    facts = shape(ctx) if name == "C09" else None
     extra, labels = c02.instrumented(ctx, rels=("client.go", "server.go", "internal/transport/websocket_client.go"))
     c = open(extra["client.go"]).read()
     c = re.sub(r"\btime\.NewTimer\(", "vNewTimer(", c) + "\nvar _ = time.Now\n"
@@ -24,6 +111,13 @@ def run(ctx, test="^TestVerifC09$", name="C09", files=None):
     if rc != 0 or not recs:
         ctx.fail("harness:" + name, "the harness did not run to completion on this tree: " + out[-1500:], kind="correspondence", no_input=True)
         return
+    impl_ok = {}
     for r in recs:
+        sc = (r.get("info") or {}).get("scenario")
+        if sc:
+            impl_ok[sc] = impl_ok.get(sc, True) and not r.get("fail")
         if r.get("fail"):
+            ctx.concrete_seen = True
             ctx.fail(r["fail"].split("/")[0], "shutdown monitor '%s' failed: %s" % (r["fail"], str(r.get("info"))[:500]), case=r)
+    if facts:
+        model_part(ctx, facts, impl_ok)
